@@ -75,6 +75,9 @@ func c09FaultDrivers() []concParams {
 	for nth := 1; nth <= 2; nth++ {
 		add(fmt.Sprintf("throttled-writers+table-create-fault#%d", nth), "throttle/bytewise", thr, [][]string{{"put:a", "put:b"}, {"tr:+a,+c"}, {"get:a"}}, f(vstor.KCreate, storage.TypeTable, nth, 3, vstor.ModeFail))
 	}
+	// removed tables hand their file numbers back (evict option set) while writers and compactions
+	// take new ones
+	out = append(out, concParams{Name: "evict-writers-vs-compactrange", Cfg: "evict/bytewise", Pre: []string{"put:a", "put:b", "put:c"}, Clients: [][]string{{"put:a", "put:b"}, {"cr"}, {"get:a"}}, QB: 1, TB: 2})
 	add("compact+manifest-write-fault-vs-tr", "flushy/bytewise", []string{"put:a", "put:b"}, [][]string{{"cr"}, {"tr:+a,+b"}, {"put:c"}}, f(vstor.KWrite, storage.TypeManifest, 1, 1, vstor.ModeFail))
 	return out
 }
